@@ -19,6 +19,14 @@ CHECKS.update({
                   "and later evaluations return the specification value (retry). Clause 'failing chain holds no value' is covered by correspondence+oracle only (partial).",
              note=EXEC_NOTE + "; C-stack crash clause outside any model", technique="Coq proof (failure branch of the executor simulation) + vm_compute correspondence", design="6/C05"),
 })
+CHECKS.update({
+ "C16": dict(text="Coq proofs over an executable Gallina model of get_calcsteps/generate_actions/execute_actions for all DAGs, all topological orders, all target lists and all step sizes: "
+                  "partition in dependency order, pasted empty, every formula runs once, exactly the targets remain (as inputs, with the directly evaluated values), cache restored by generate_actions. "
+                  "Tied to /repo on every run by exact comparison of action lists, execution logs, per-action cache states and values on generated models.",
+             note="trusted: Coq kernel incl. vm_compute, harness, Plan/Tie.v; modelled not verified: networkx topological_sort (its output is an input checked by check_order, proved sound), "
+                  "trace graph abstracted to calculated nodes reachable through calculated nodes; precondition D25 (no precedent pre-computed) explicit in the statements, recorded as known finding",
+             technique="Coq proof (induction over the planner loop and over fuel) + vm_compute correspondence + property oracle", design="6/C16"),
+})
 EXPLORE = {
  "C02": "differential oracle (live model vs model that replayed only the edits) + correspondence of Exec/Model.v; invariant-preservation theorems for edits under construction",
  "C06": "graph-descendant oracle on every value edit + correspondence of Exec/Model.v; theorems under construction",
